@@ -305,6 +305,12 @@ namespace sim
                   else if( top->cls == RC::ENABLE || top->cls == RC::W_ENABLE_ACTION ) {
                      expect_action = true;
                   }
+                  else if( e.rule != top->rule && top->cls == RC::W_CHANGE_ACTION_STATES ) {
+                     expect_action = false;  // act2< mw_cass > is disable_action: applies to everything below the rule
+                  }
+                  else if( e.rule != top->rule && top->cls == RC::W_CHANGE_ACTION_STATE ) {
+                     expect_action = true;  // act2< mw_cas > is enable_action
+                  }
                   if( ( ( e.flags & F_ACTION ) != 0 ) != expect_action ) {
                      cx.viol( "C13.mode", head_name( top->rule ), i, std::string( "apply mode is " ) + ( ( e.flags & F_ACTION ) ? "action" : "nothing" ) + " for " + short_name( e.rule ) + " under " + short_name( top->rule ) + " (entered with " + ( ( top->flags & F_ACTION ) ? "action" : "nothing" ) + ")" );
                   }
